@@ -246,6 +246,53 @@ pub fn run(s: &Scn, st: &mut Stats, check_structure: bool) -> Verdict {
         let Some(k) = k else { return Verdict::Harness("rx.parse: no k <= 16 fits".into()) };
         return run_generic(s, st, check_structure, k, &|known| crate::ops_parse::RxCircuit { case: case.clone(), known });
     }
+    if case.op.starts_with("ff.c25519") {
+        // zeros are admissible witnesses of every field operation but the inverses: search k with ones
+        let mut probe = case.clone();
+        probe.bins.iter_mut().for_each(|b| *b = "1".into());
+        probe.ins.iter_mut().for_each(|x| *x = Fe(Fq::from(0)));
+        let key = case.static_key();
+        let cached = k_cache().lock().unwrap().get(&key).copied();
+        let k = match cached {
+            Some(k) => k,
+            None => {
+                let c0 = crate::ops_ff::FfScratch { case: probe, known: true };
+                let mut found = None;
+                for kk in 9..=15u32 {
+                    if let Ok(Ok(())) = catch(|| rayon::sim::isolated(1, || midnight_proofs::dev::MockProver::run(kk, &c0, vec![vec![], vec![]]).map(|_| ()))) {
+                        found = Some(kk);
+                        break;
+                    }
+                }
+                let Some(k) = found else { return Verdict::Harness(format!("{}: no k <= 15 fits", case.op)) };
+                k_cache().lock().unwrap().insert(key, k);
+                k
+            }
+        };
+        return run_generic(s, st, check_structure, k, &|known| crate::ops_ff::FfScratch { case: case.clone(), known });
+    }
+    if case.op.starts_with("vh.") {
+        // one size fits every length: the buffer has a fixed capacity
+        let key = "vh.sha256".to_string();
+        let cached = k_cache().lock().unwrap().get(&key).copied();
+        let k = match cached {
+            Some(k) => k,
+            None => {
+                let c0 = crate::ops_hash::varsha::VarShaCircuit { case: case.clone(), known: true };
+                let mut found = None;
+                for kk in 13..=17u32 {
+                    if let Ok(Ok(())) = catch(|| rayon::sim::isolated(1, || midnight_proofs::dev::MockProver::run(kk, &c0, vec![vec![], vec![]]).map(|_| ()))) {
+                        found = Some(kk);
+                        break;
+                    }
+                }
+                let Some(k) = found else { return Verdict::Harness("vh.sha256: no k <= 17 fits".into()) };
+                k_cache().lock().unwrap().insert(key, k);
+                k
+            }
+        };
+        return run_generic(s, st, check_structure, k, &|known| crate::ops_hash::varsha::VarShaCircuit { case: case.clone(), known });
+    }
     if case.op.starts_with("sp.") {
         let c0 = crate::ops_hash::sponge::SpCircuit { case: case.clone(), known: true };
         let mut k = None;
